@@ -5,11 +5,15 @@ import BibVerif.Wire.Heap
 import BibVerif.Wire.Latex
 import BibVerif.Wire.EntryOps
 import BibVerif.Wire.Library
+import BibVerif.Wire.Writer
+import BibVerif.Wire.Enclosing
+import BibVerif.Wire.Interpolate
 namespace Bib.Wire
 
 /-- every command the driver understands -/
 def handlers : List (String × Handler) :=
   splitHandlers ++ addAllHandlers ++ stackHandlers ++ heapHandlers ++ latexHandlers
   ++ entryOpsHandlers ++ libraryHandlers
+  ++ writerHandlers ++ enclosingHandlers ++ interpolateHandlers
 
 end Bib.Wire
